@@ -117,10 +117,15 @@ def run_shards(modname, cases, jobs, timeout_s, workdir):
 def load_known(prop):
     path = os.path.join(HERE, "known_findings.json")
     try:
-        data = json.load(open(path))
+        allents = list(json.load(open(path)).get("findings", []))
     except FileNotFoundError:
-        return [], []
-    ents = [e for e in data.get("findings", []) if e.get("property") == prop]
+        allents = []
+    ddir = os.path.join(HERE, "known_findings.d")
+    if os.path.isdir(ddir):
+        for fn in sorted(os.listdir(ddir)):
+            if fn.endswith(".json"):
+                allents.extend(json.load(open(os.path.join(ddir, fn))))
+    ents = [e for e in allents if e.get("property") == prop]
     return [e for e in ents if e.get("status") == "open"], [e for e in ents if e.get("status") == "fixed"]
 
 
